@@ -61,6 +61,7 @@ class KernelRun:
         self.modes = {}
         self.relevant_ops = None
         self.inv = {"states": 0, "valid_states": 0, "fails": []}
+        self.corpus_final = {}
         os.makedirs(os.path.join(fw.BUILD, "run"), exist_ok=True)
 
     def ok(self): return self.impl is not None and self.model is not None
@@ -81,6 +82,9 @@ class KernelRun:
             f["lines"] = script_blocks(path).get(f["script"], [])[:f["step"]]
             self.inv["fails"].append(f)
         scripts = script_blocks(path)
+        if os.path.dirname(path) == CORPUS:
+            for name, blocks in lockstep.split_scripts(st["impl_out"]).items():
+                if blocks: self.corpus_final[name] = blocks[-1]
         for of in st.get("oracle_fails", []):
             of["lines"] = scripts.get(of["script"], [])[:of["step"]]
             self.oracle_fails.append(of)
